@@ -40,10 +40,11 @@ func H_C17_sem(n int) {
 		vAssert("string-bytes-same-error", bok && sok && be.Func == se.Func && string(be.Input) == se.Input && sameChain(be.Err, se.Err))
 	}
 	if berr == nil {
-		keep := bv
+		vAssert("parsed-strings-do-not-alias-input", !vAliases(bv.PreRelease, in) && !vAliases(bv.Build, in) && !vAliases(v.PreRelease, in) && !vAliases(v.Build, in))
 		for i := range in {
 			in[i] = 0xAA
 		}
-		vAssert("value-independent-of-buffer", bv == keep)
+		// sv was parsed from an immutable string: it cannot have changed (a copy of bv would share bv's memory)
+		vAssert("value-independent-of-buffer", bv == sv)
 	}
 }
